@@ -234,6 +234,11 @@ def oracle(case):
 			u2 = URI(b'http://h/p')
 			u2.query = pairs
 			back2 = URI(bytes(u2)).query
+			# ... and on an object that already has a query: the assignment replaces it (also by nothing)
+			u3 = URI(b'http://h/p?old=1&older=2')
+			u3.query = pairs
+			if back == tuple(pairs) and back2 == back and u3.query != tuple(pairs):
+				back = ('on a URI that had a query', u3.query)
 			if back == tuple(pairs) and back2 != back:
 				back = ('via-text', back2)
 		except Exception as e:
